@@ -32,11 +32,16 @@ class Ctx:
         self.opaque = {}      # unparsed python expression -> (coq expr template using {self}, type): named model primitives
         self.loop_fuel = {}   # (func, loop index) -> fuel
         self.rename = {}      # python function name -> coq definition name
+        self.none_for = {}    # variable name -> (coq expr, type): representation of `name = None` (typed optional locals)
 
 
 def _tname(t):
     if isinstance(t, tuple):
         return "(" + " * ".join(_tname(x) for x in t) + ")"
+    if t == "list":      # a row of a constant table held in a local variable (C07: months_offsets = MONTHS_OFFSETS[leap])
+        return "list Z"
+    if t == "list2":
+        return "list (list Z)"
     return t
 
 
@@ -68,7 +73,12 @@ class FunTr:
             key = ast.unparse(e)
             if key in c.opaque:
                 tmpl, t = c.opaque[key]
-                return ("(" + tmpl.format(self=self.v("self")) + ")", t)
+                class _V(dict):
+                    def __missing__(d, k):
+                        if k not in self.env:
+                            self.fail(e, f"opaque expression reads undefined variable {k}")
+                        return self.v(k)
+                return ("(" + tmpl.format_map(_V()) + ")", t)
         if isinstance(e, ast.Constant):
             if isinstance(e.value, bool):
                 return ("true" if e.value else "false", B)
@@ -314,6 +324,12 @@ class FunTr:
             if s.value is None:
                 self.fail(s, "bare return")
             e, t = self.expr(s.value)
+            if isinstance(t, tuple) and len(t) == 2 and t[0] == "result":
+                # a model primitive that can raise: its result is the function's result
+                if self.monad != "result":
+                    self.fail(s, "raising primitive in a function without raise")
+                self.note_ret(t[1], s)
+                return e
             self.note_ret(t, s)
             return self.wrap_ok(e)
         if isinstance(s, ast.Raise):
@@ -330,7 +346,16 @@ class FunTr:
                 tgt, val = s.targets[0], s.value
             else:
                 tgt, val = s.target, s.value
-            e, t = self.expr(val)
+            if (isinstance(val, ast.Constant) and val.value is None and isinstance(tgt, ast.Name)
+                    and tgt.id in self.ctx.none_for):
+                e, t = self.ctx.none_for[tgt.id]     # `name = None` for a declared optional local (C06)
+            else:
+                e, t = self.expr(val)
+            if isinstance(t, tuple) and len(t) == 2 and t[0] == "result" and isinstance(tgt, ast.Name):
+                if self.monad != "result":
+                    self.fail(s, "raising primitive in a function without raise")
+                self.env[tgt.id] = t[1]
+                return (f"match {e} with\n  | Raise exn_ => Raise exn_\n  | Ok {self.v(tgt.id)} =>\n  " + self.block(rest, k) + "\n  end")
             if isinstance(tgt, ast.Name):
                 self.env[tgt.id] = t
                 return f"let {self.v(tgt.id)} := {e} in\n  " + self.block(rest, k)
@@ -371,13 +396,12 @@ class FunTr:
             # pure join: both branches only assign
             vars_ = self.assigned(s.body + s.orelse)
             env0 = dict(self.env)
-            for n_ in vars_:
-                if n_ not in env0:
-                    # defined only inside the if: give it a default in the other branch is unsound -> reject
-                    both = n_ in self.assigned(s.body) and n_ in self.assigned(s.orelse)
-                    if not both:
-                        self.fail(s, f"variable {n_} assigned in one branch only and not defined before")
-            tup = lambda: "(" + ", ".join(self.v(n_) for n_ in vars_) + ")" if len(vars_) > 1 else self.v(vars_[0])
+            # a variable assigned in one branch only and not defined before the `if` is a branch-local temporary:
+            # it is not joined, and it is undefined afterwards (a later read fails closed as an unknown name)
+            local_tmp = [n_ for n_ in vars_ if n_ not in env0
+                         and not (n_ in self.assigned(s.body) and n_ in self.assigned(s.orelse))]
+            vars_ = [n_ for n_ in vars_ if n_ not in local_tmp]
+            tup = lambda: "(" + ", ".join(self.v(n_) for n_ in vars_) + ")" if len(vars_) > 1 else (self.v(vars_[0]) if vars_ else "tt")
             a = self.block(s.body, tup) if s.body else tup()
             env_a = dict(self.env)
             self.env = dict(env0)
@@ -386,6 +410,8 @@ class FunTr:
                 ta, tb = env_a.get(n_), self.env.get(n_)
                 if ta != tb:
                     self.fail(s, f"variable {n_} has different types in branches ({ta}/{tb})")
+            for n_ in local_tmp:
+                self.env.pop(n_, None)
             if not vars_:
                 return self.block(rest, k)
             pat = "'(" + ", ".join(self.v(n_) for n_ in vars_) + ")" if len(vars_) > 1 else self.v(vars_[0])
